@@ -1057,6 +1057,10 @@ impl ActiveFile {
 
         let file = fs.open_existing(file_path)?;
 
+        // The file may have been created by an attempt that failed before its
+        // existence was synced to the parent directory, so make sure it is now
+        fs.sync_parent(file_path)?;
+
         let file_size_bytes = file.len()?;
 
         Ok(ActiveFile {
